@@ -50,20 +50,24 @@ type GenCtx struct {
 	Prop  string
 	ops   []Op
 	pairs []identPair
+	div   int
 }
 
 func (c *GenCtx) thorough() bool { return c.Tier == "thorough" }
 
 // n scales a quick budget to the thorough tier.
 func (c *GenCtx) n(quick, thorough int) int {
+	v := quick
 	if c.thorough() {
-		return thorough
+		v = thorough
+	} else if 3*quick < thorough {
+		// quick runs take seconds: afford three times the nominal quick budget where that stays below the thorough one
+		v = 3 * quick
 	}
-	// quick runs take seconds: afford three times the nominal quick budget where that stays below the thorough one
-	if 3*quick < thorough {
-		return 3 * quick
+	if c.div > 1 {
+		v = v/c.div + 1
 	}
-	return quick
+	return v
 }
 
 func (c *GenCtx) add(family, expr, data string) {
@@ -453,7 +457,41 @@ func (c *GenCtx) projDoc() string {
 		`,"a":` + elem() + `,"b":` + elem() + `,"k":` + elem() + `}`
 }
 
+// scaled runs a family with its budgets divided by k (the base mix every property's check includes).
+func (c *GenCtx) scaled(k int, f func(*GenCtx)) {
+	c.div = k
+	f(c)
+	c.div = 0
+}
+
+// genBase: a modest mix of every family. A change that breaks property X often shows through operations that X's own
+// families do not generate (an error-contract bug inside `let`, a scoping bug inside `sort_by`), so every check
+// also runs this mix.
+func genBase(c *GenCtx) {
+	if c.Prop == "C07" {
+		return // the race build is an order of magnitude slower
+	}
+	c.scaled(6, func(c *GenCtx) {
+		genTyped(c, c.n(12000, 240000), 3)
+		genRandom(c, "rand", c.n(6000, 120000), 3)
+		genProjections(c, c.n(6000, 120000))
+		genLet(c)
+		genEquality(c)
+		genNumbers(c)
+		genOverflow(c)
+		genStrings(c)
+		genSort(c)
+		genLiterals(c)
+		genRepr(c)
+	})
+	c.scaled(12, func(c *GenCtx) {
+		genArgs(c)
+		genOperators(c)
+	})
+}
+
 func generate(c *GenCtx) []Op {
+	genBase(c)
 	switch c.Prop {
 	case "C01":
 		genCorpus(c)
